@@ -7,6 +7,9 @@ CONSTANTS
  Paths <- MCPaths
  MaxOps = 4
  WithFF = TRUE
+ MolIdx <- MCMolAll
+ MsgKinds <- MCMsgNone
+ MaxMsgs = 0
  HDev = "none"
 INVARIANT ReadIsCurrent
 INVARIANT FsHoldsWrite
